@@ -2258,8 +2258,10 @@ class Array:
                 return self.astype(new_type).norm(ord, False)
         block_norms = [np.linalg.norm(t.reshape(-1), ord) for t in self._data]
         # ``.reshape(-1) gives a 1D view and is thus faster than ``.flatten()``
-        # add a [0] in the list to ensure correct results for ``ord=-inf``
-        return np.linalg.norm(block_norms + [0], ord)
+        if len(block_norms) == 0 or self.size < np.prod(self.shape):
+            # entries which are not stored are zero: needed for correct results for ``ord=-inf``
+            block_norms.append(0)
+        return np.linalg.norm(block_norms, ord)
 
     def __neg__(self):
         """Return ``-self``"""
